@@ -1,7 +1,8 @@
 (* C17 property theorems: trace diff counts and durations are exact; change classes partition the names. *)
 From HTA.lib Require Import Base.
 From HTA.model Require Import C17_Model.
-From HTA.proof Require Import C17_Proofs.
+From HTA.gen Require Import DiffRules_gen.
+From HTA.proof Require Import C17_RulesTie C17_Proofs.
 Open Scope Z_scope.
 
 Theorem C17_selection_exact : forall frames its dev e,
@@ -52,3 +53,8 @@ Example C17_nonvacuous :
   encode_C17 ["at::native::kernel"; "aten::add"; "aten::relu"] true 0 [c17] [3] [t17] [5] =
   [[0; 1; 1; 4; 3; 0; -1; 0; 0; 0; 0; 0; 1]; [1; 2; 1; 7; 7; -1; 0; -1; 0; 0; 0; 1; 0]; [2; 0; 1; 0; 3; 1; 3; 1; 1; 0; 0; 0; 0]].
 Proof. vm_compute. reflexivity. Qed.
+
+(* the tie by regeneration: the five class masks and the sign column are those read out of TraceDiff.ops_diff / compare_traces *)
+Theorem C17_classes_follow_source : (forall c t, masks c t = masks_gen c t) /\ (forall d, sign d = sign_gen d).
+Proof. split; [exact masks_are_generated | exact sign_is_generated]. Qed.
+Print Assumptions C17_classes_follow_source.
